@@ -1,5 +1,5 @@
 """C21 — language-server document sync matches the client's document."""
-import glob, json, os, re, sys
+import glob, json, os, re, sys, zlib
 
 PROP = "C21"
 META = {
@@ -460,10 +460,17 @@ def run(ctx):
     allops = H.ops + raw_ops
 
     if ctx.replay:
-        rp = json.load(open(ctx.replay))["replay"]
+        # replay mode: run the recorded history on the current tree; the recorded (violating) answer
+        # of the last op reproduces <=> the violation is still there
+        rec = json.load(open(ctx.replay))
+        rp = rec["replay"]
         _, out, _ = ctx.run_bin(harness, input_text="\n".join(rp["ops"]) + "\n")
-        got = out.splitlines()[-1] if out.splitlines() else ""
-        print("replay: last op %r -> %r (recorded %r; required %s)" % (rp["ops"][-1], got, rp.get("impl"), rp.get("required")))
+        got = out.splitlines()[-1] if out.splitlines() else "<no output>"
+        print("replay: last op %r -> %r (recorded %r; required %s)" % (rp["ops"][-1][:200], got[:200], str(rp.get("impl"))[:200], rp.get("required")))
+        if got == rp.get("impl"):
+            ctx.violation(rec.get("key", "replay"), rec.get("what", "replayed violation reproduces"), rp)
+        return ctx.finish("proof", {"evaluations": len(rp["ops"]), "distinct_nontrivial": 1, "rule": "replay of one recorded history",
+                                    "samples": [{"op": rp["ops"][-1][:200], "impl": got[:200]}], "distribution": {"replayed_ops": len(rp["ops"])}})
 
     _, out, err = ctx.run_bin(harness, input_text="\n".join(allops) + "\n")
     impl = out.splitlines()
@@ -524,7 +531,7 @@ def run(ctx):
                 dist["sync_ok"] += 1
                 if f[0] == "change":
                     nontrivial.add(("sync", op.count(","), any(ord(ch) > 0xFFFF for ch in want), "\r\n" in want, "\n" in want.replace("\r\n", ""),
-                                    min(len(want), 40) // 8, hash(op) % 64))
+                                    min(len(want), 40) // 8, zlib.crc32(op.encode()) % 64))
             elif in_lone:
                 dist["lone_cr_divergences"] += 1          # outside the guard: measured only
             elif f[0] == "change" and not is_wa:
